@@ -43,7 +43,7 @@ macro "unfold_gen" : tactic => `(tactic| simp only [Gen.add_forward, Gen.add_bac
   Gen.tanh_backward, Gen.sigmoid_forward, Gen.sigmoid_backward, Gen.mse_loss_forward, Gen.mse_loss_backward, Gen.bce_loss_forward,
   Gen.bce_loss_backward, Gen.bce_with_logits_loss_forward, Gen.bce_with_logits_loss_backward,
   tr_exp, tr_log, tr_sqrt, tr_tanh, tr_pow, epsilon_c_eq])
-macro "formula_eq" : tactic => `(tactic| first | rfl | (unfold_gen; first | rfl | ring | (push_cast; ring)))
+macro "formula_eq" : tactic => `(tactic| first | rfl | (unfold_gen; done) | (unfold_gen; first | rfl | ring | (push_cast; ring)))
 macro "unfold_model" : tactic => `(tactic| simp only [negForward, negBackward, expForward, expBackward, logForward, logBackward, sqrtForward,
   sqrtBackward, powForward, powBackward, rpowForward, rpowBackward, addForward, mulForward, reluForward, reluBackward, leakyReluForward,
   leakyReluBackward, seluForward, seluBackward, tanhForward, tanhBackward, sigmoidForward, sigmoidBackward, mseForward, indPos, indNonPos])
@@ -59,10 +59,10 @@ theorem src_add_right (a : ℝ) : SrcVJP (fun b => Gen.add_forward a b) (fun g _
   fun x _ => ⟨1, by simpa [Gen.add_forward] using (hasDerivAt_id x).const_add a, fun g => by simp [Gen.add_backward]⟩
 
 theorem src_mul_left (b : ℝ) : SrcVJP (fun a => Gen.mul_forward a b) (fun g a => (Gen.mul_backward g a b).1) (fun _ => True) :=
-  fun x _ => ⟨b, by simpa [Gen.mul_forward] using (hasDerivAt_id x).mul_const b, fun g => by unfold_gen; ring⟩
+  fun x _ => ⟨b, by simpa [Gen.mul_forward] using (hasDerivAt_id x).mul_const b, fun g => by formula_eq⟩
 
 theorem src_mul_right (a : ℝ) : SrcVJP (fun b => Gen.mul_forward a b) (fun g b => (Gen.mul_backward g a b).2) (fun _ => True) :=
-  fun x _ => ⟨a, by simpa [Gen.mul_forward] using (hasDerivAt_id x).const_mul a, fun g => by unfold_gen; ring⟩
+  fun x _ => ⟨a, by simpa [Gen.mul_forward] using (hasDerivAt_id x).const_mul a, fun g => by formula_eq⟩
 
 theorem src_neg : SrcVJP Gen.neg_forward (fun g _ => Gen.neg_backward g) (fun _ => True) :=
   fun x _ => ⟨-1, by
@@ -241,8 +241,8 @@ theorem lift_mul (a b g : NDArray ℝ) : mulForward a b = bcast2 Gen.mul_forward
       let ga ← bcast2 (fun gv bv => (Gen.mul_backward gv 0 bv).1) g b
       let gb ← bcast2 (fun gv av => (Gen.mul_backward gv av 0).2) g a
       pure (unbroadcast ga a.shape, unbroadcast gb b.shape)) := by
-  have h1 : (fun gv bv : ℝ => (Gen.mul_backward gv 0 bv).1) = (· * ·) := by funext x y; unfold_gen; ring
-  have h2 : (fun gv av : ℝ => (Gen.mul_backward gv av 0).2) = (· * ·) := by funext x y; unfold_gen; ring
+  have h1 : (fun gv bv : ℝ => (Gen.mul_backward gv 0 bv).1) = (· * ·) := by funext x y; formula_eq
+  have h2 : (fun gv av : ℝ => (Gen.mul_backward gv av 0).2) = (· * ·) := by funext x y; formula_eq
   refine ⟨by lift_eq, ?_⟩
   rw [h1, h2]; rfl
 /-- `add_backward` multiplies the upstream gradient by `ones`: the model passes it on unchanged -/
